@@ -22,7 +22,7 @@ from .common import Out, with_, drop_each, REAL_ALL, STUB_ALL
 ID = "C20"
 TIERS = {"quick": {"n": 3600, "chunk": 60}, "thorough": {"n": 150000, "chunk": 200, "wall_cap": 3300}}
 RULE = (
-    "scenario kinds: chain (1/2), refs (1/4), replay (1/4). chain: generated file, 2-4 filter members (header tests, in(), not(), line_number windows, yes(); scan windows), preceding on a suffix, serial collecting run form. "
+    "scenario kinds: chain (1/2), refs (1/4), replay (1/4). chain: generated file, 2-4 filter members (header tests, in(), not(), line_number windows, yes(); scan windows), preceding on a suffix (1 in 3 of the longer chains: a member without the mode follows one with it), serial collecting run form. "
     "refs: G = one member assigning a plain variable, a tracking variable and collecting a column, run 1-3 times over different files, then a reader using the three reference forms. replay: G of 1-2 members run 1-3 times, "
     "then a run whose file name is a results reference with a year/day/hour/full prefix and ':last'. Non-trivial = some stage read a predecessor's data / a reference was resolved after >= 1 run; "
     "distinct = (kind, #members, suffix start, #runs of G, reference form, instance reuse, run form)."
@@ -66,6 +66,9 @@ def gen_chain(rng):
     s = rng.randint(1, k - 1)
     for j in range(s, k):
         members[j]["modes"] = {"source-mode": "preceding"}
+    if k - s >= 2 and rng.random() < 0.35:
+        # a mixed chain: a member WITHOUT the mode follows one with it (and reads the named file again)
+        del members[rng.randint(s + 1, k - 1)]["modes"]
     return {"kind": "chain", "rows": rows, "members": members, "suffix": s, "method": rng.choice(["collect_paths", "next_paths_collect"])}
 
 
@@ -147,12 +150,11 @@ def reductions(sc):
             for j in range(k):
                 c = with_(sc)
                 del c["members"][j]
-                c["suffix"] = max(1, min(c["suffix"] if j >= c["suffix"] else c["suffix"] - 1, len(c["members"]) - 1))
-                for jj, m in enumerate(c["members"]):
-                    if jj >= c["suffix"]:
-                        m["modes"] = {"source-mode": "preceding"}
-                    else:
-                        m.pop("modes", None)
+                c["members"][0].pop("modes", None)
+                pre = [jj for jj, m in enumerate(c["members"]) if m.get("modes")]
+                if not pre:
+                    continue
+                c["suffix"] = pre[0]
                 yield c
         for rows in gen.rows_reductions(sc["rows"]):
             yield with_(sc, rows=rows)
@@ -244,7 +246,7 @@ def _chain(sc, out, w):
     empty_seen = False
     for j, m in enumerate(members):
         plain = {kk: v for kk, v in m.items() if kk != "modes"}
-        if j >= sc["suffix"]:
+        if m.get("modes"):
             if not expected[j - 1]:
                 # predecessor collected nothing (today the run aborts there: known finding); whatever a tree does
                 # instead of aborting, "reads exactly the lines its predecessor collected" means it reads none
@@ -273,7 +275,7 @@ def _chain(sc, out, w):
         exc = e
     out.runs += 1
     if exc is not None:
-        j = next((x for x in range(sc["suffix"], k) if not expected[x - 1]), k - 1)
+        j = next((x for x in range(1, k) if members[x].get("modes") and x - 1 < len(expected) and not expected[x - 1]), k - 1)
         out.v(
             "chain_member_raised",
             f"{where}: the run raised {ops.exc_sig(exc)}" + (f" (member m{j} has source-mode preceding and its predecessor collected 0 lines)" if empty_pred else ""),
@@ -294,7 +296,7 @@ def _chain(sc, out, w):
         want = expected[j] if j < len(expected) else None
         if want is None:
             continue
-        pre = j >= sc["suffix"]
+        pre = bool(m.get("modes"))
         if got != want:
             out.v(
                 "chain_not_composition",
@@ -322,6 +324,7 @@ def _chain(sc, out, w):
             out.v("chain_caller_stream", f"{where}: caller saw {caller!r:.300}, concatenation of the stages' lines is {want_stream!r:.300}")
     out.sig = ["chain", k, sc["suffix"], sc["method"], [len(e) if e is not None else None for e in expected][:4]]
     out.nontrivial = flowed
+    out.probe("member without source-mode after one with it", any(members[j].get("modes") and not members[j + 1].get("modes") for j in range(k - 1)))
     out.probe("predecessor dropped the header record", any(e and e[0] and e[0][0] != "id" for e in expected[:-1] if e))
     out.log(expected, len(out.violations))
 
@@ -334,7 +337,8 @@ def _g_member(sc):
 
 
 def _g2_member(sc):
-    return {"id": "g1", "scan": "*", "comps": ["@w = #2", "@n2 = count()"]}
+    # (n is also set by g0, over another scan window: the reference must agree with the manager's merged view)
+    return {"id": "g1", "scan": "*", "comps": ["@w = #2", "@n2 = count()", "@n = add(count(), 100)"]}
 
 
 def _refs(sc, out, w):
@@ -353,7 +357,7 @@ def _refs(sc, out, w):
         for fi in range(len(sc["files"])):
             cs.file_manager.add_named_file(name=f"f{fi}", path=f"src/f{fi}.csv")
         cs.paths_manager.add_named_paths(name="G", paths=[gen.render(m) for m in gms])
-        reader = f"~id:r0~ $[*][ @a = $G.variables.v  @b = $G.variables.t.k  @n = $G.variables.n  @h = {ref_h}" + ("  @w = $G.variables.w  @n2 = $G.variables.n2" if two else "") + " ]"
+        reader = f"~id:r0~ $[*][ @a = $G.variables.v  @b = $G.variables.t.k  @n = $G.variables.n  @sl = $G.variables.s  @h = {ref_h}" + ("  @w = $G.variables.w  @n2 = $G.variables.n2" if two else "") + " ]"
         cs.paths_manager.add_named_paths(name="R", paths=[reader])
     reader_name = f"f{sc['reader_file']}"
     if sc.get("reader_layout") == "permuted":
@@ -380,7 +384,14 @@ def _refs(sc, out, w):
     if two:
         cp2, _, _ = ops.standalone(gen.render(_g2_member(sc), f"src/f{last['file']}.csv"))
         out.runs += 1
-        want_vars.update(ops.jsonable(cp2.variables))
+        v2 = ops.jsonable(cp2.variables)
+        n_of = [want_vars.get("n"), v2.get("n")]
+        want_vars.update({kk: vv for kk, vv in v2.items() if kk != "n"})
+        # n is set by both members: "the value the group left in n" is what the results manager's own merged view says
+        merged_n = ops.jsonable(cs.results_manager.get_variables("G")).get("n")
+        if merged_n not in n_of:
+            out.v("merged_variables", f"results_manager.get_variables('G')['n'] = {merged_n!r} is the final n of neither member ({n_of})")
+        want_vars["n"] = merged_n
     want_col = [f"{l[col]}".strip() for l in lines if len(l) > col and l[col] is not None]
     seams.SimClock.advance(seconds=1)
     ops.run_group(cs, sc["reader_method"], "R", fname=reader_name)
@@ -392,17 +403,22 @@ def _refs(sc, out, w):
     for var, key, form in pairs:
         if rv.get(var) != want_vars.get(key):
             out.v("variable_reference", f"{where}: {form} evaluated to {rv.get(var)!r}, the most recent run of G left {want_vars.get(key)!r} (errors {errs})", form="plain")
+    raw_sl = ops.results_of(cs, "R")[0].csvpath.variables.get("sl")
+    want_sl = cp.variables.get("s")
+    if raw_sl != want_sl:
+        out.v("variable_reference", f"{where}: $G.variables.s evaluated to {raw_sl!r}, the most recent run of G left {want_sl!r} (errors {errs})", form="stack")
     want_b = (want_vars.get("t") or {}).get("k")
     if rv.get("b") != want_b:
         out.v("variable_reference", f"{where}: $G.variables.t.k evaluated to {rv.get('b')!r}, the most recent run of G left {want_b!r} (errors {errs})", form="tracking")
     if lines and last["method"] in ops.COLLECTING:
         if rv.get("h") != want_col:
             out.v("header_reference", f"{where}: {ref_h} evaluated to {rv.get('h')!r}, the values collected under column {col} ({hname!r}) are {want_col!r} (errors {errs})", by_id=by_id)
-    out.fault("reference_resolved", 4 + (2 if two else 0))
+    out.fault("reference_resolved", 5 + (2 if two else 0))
     out.sig = ["refs", len(sc["runs"]), [r["method"] for r in sc["runs"]], sc["reader_method"], by_id, len({r["file"] for r in sc["runs"]}), two]
     out.nontrivial = True
     out.probe("reference after the group ran more than once", len(sc["runs"]) > 1)
     out.probe("reference into a group of two members", two)
+    out.probe("reference to a variable that two members set to different values", two and len(set(map(str, n_of))) > 1 if two else False)
     out.probe("header reference to a digit-only header name", hname.isdigit())
     out.probe("reader scans a file whose columns are in another order", False)
     out.log(rv, want_vars, want_col, len(out.violations))
